@@ -64,6 +64,135 @@ def attr_extra(ex, env):
             lambda ex_, st, c, A: (lambda b: Agg('struct', '~typed', None, [b.fields[0], Opaque('node', 'typed node')]) if isinstance(b, Agg) and b.name == '~builder' else None)(strip(ex_, st, A[0])), 'typed node built with the annotation of the builder')
 
 
+def tag_extra(ex, env):
+    INPRIOR, SAME, TAGS, LUBOK = z3.Bool('capability_for_this_tag_is_a_prior_fact'), z3.Bool('the_tracked_fact_is_this_capability'), z3.Bool('the_entity_types_have_tags'), z3.Bool('the_tag_types_have_a_least_upper_bound')
+    env.update(INPRIOR=INPRIOR, SAME=SAME, TAGS=TAGS, LUBOK=LUBOK)
+    env['pre'] += [z3.Implies(SAME, INPRIOR == env['PRIOR'])]
+    gid, names = env['gid'], env['names']
+    ids = [k.id for k in env['kids']]
+    THIS, WRONG = Opaque('validator::types::capability::Capability', 'the capability `child0 hasTag child1`'), Opaque('validator::types::capability::Capability', 'a capability about other expressions')
+    ex.stub(r'Capability::<.*>::new_borrowed_tag$|Capability::new_borrowed_tag$', lambda ex_, st, c, A: THIS if [gid(ex_, st, A[0]), gid(ex_, st, A[1])] == ids else WRONG,
+            'Capability::new_borrowed_tag(child0, child1): a marker (another marker if it is not about these two children in this order)')
+    ex.stub(r'CapabilitySet::<.*>::contains$|CapabilitySet::contains$', lambda ex_, st, c, A: BoolV(INPRIOR if gid(ex_, st, A[1]) == THIS.id else T), 'prior.contains(capability): free for the capability of this access (a wrong capability counts as always present)')
+    ex.stub(r'CapabilitySet::<.*>::singleton$|CapabilitySet::singleton$', lambda ex_, st, c, A: cap(SAME if gid(ex_, st, A[0]) == THIS.id else T), 'CapabilitySet::singleton(capability)')
+    TT = Opaque('HashSet<&Type>', 'the tag types of the entity types')
+    ex.stub(r'Typechecker::<.*>::tag_types$|Typechecker::tag_types$', lambda ex_, st, c, A: TT, 'tag_types(kind): the set of declared tag types (empty or not: free)')
+    ex.stub(r'HashSet::<&.*Type.*>::is_empty$', lambda ex_, st, c, A: BoolV(z3.Not(TAGS)), 'tag_types.is_empty(): free')
+    ex.stub(r'HashSet<&.*Type.*> as Clone>::clone$', lambda ex_, st, c, A: TT, 'tag_types.clone()')
+
+    def rlub(ex_, st, c, A):
+        from ..models import ok, err
+        return [([LUBOK], ok(mk_type('Long', names))), ([z3.Not(LUBOK)], err(Opaque('LubHelp', 'no least upper bound')))]
+    ex.stub(r'Type::reduce_to_least_upper_bound(::<.*>)?$', rlub, 'Type::reduce_to_least_upper_bound(tag types): Long, or none')
+    ex.stub(r'EntityLUB::get_single_entity$', lambda ex_, st, c, A: none(), 'EntityLUB::get_single_entity (for the error message only)')
+    ex.stub(r'EntityKind::is_subtype$', lambda ex_, st, c, A: BoolV(T), 'EntityKind::is_subtype(_, AnyEntity): every entity type is an entity reference')
+    ex.stub(r'ExprBuilder::<.*>::new$', lambda ex_, st, c, A: Agg('struct', '~builder', None, [none()]), 'ExprBuilder::new: no annotation')
+    ex.stub(r'ExprBuilder<.*> as (expr_builder::)?ExprBuilder>::(get_tag|has_tag|binary_app)$|ExprBuilder::<.*>::(get_tag|has_tag|binary_app)$',
+            lambda ex_, st, c, A: (lambda b: Agg('struct', '~typed', None, [b.fields[0], Opaque('node', 'typed node')]) if isinstance(b, Agg) and b.name == '~builder' else None)(strip(ex_, st, A[0])), 'typed node built with the annotation of the builder')
+
+
+def spec_hastag(kinds, CL, PRIOR, notes=None, env=None):
+    def type_ok(rk):
+        if 'Never' in kinds or rk == 'Bool':
+            return T
+        if rk == 'True':          # always true: only when the capability is a prior fact
+            return env['INPRIOR']
+        if rk == 'False':         # never true: the entity types cannot have tags
+            return z3.Not(env['TAGS'])
+        return F
+    return {'evaluated': [True, True], 'kinds_ok': [{'Entity', 'Never'}, {'String', 'Never'}], 'capin': [PRIOR, PRIOR], 'capout': z3.Or(PRIOR, env['SAME']), 'type_ok': type_ok}
+
+
+def spec_gettag(kinds, CL, PRIOR, notes=None, env=None):
+    return {'evaluated': [True, True], 'kinds_ok': [{'Entity', 'Never'}, {'String', 'Never'}], 'capin': [PRIOR, PRIOR], 'capout': PRIOR, 'types': {'Long'}, 'sound_extra': z3.And(env['INPRIOR'], env['TAGS'], env['LUBOK'])}
+
+
+def eq_extra(ex, env):
+    """`==`: what the operands are (literals or not, equal literals or not) and whether two entity types share a member are free"""
+    LIT = [z3.Bool(f'child{i}_is_a_literal') for i in range(2)]
+    LEQ, DISJ, STRICT, SEQ = z3.Bool('the_literals_are_equal'), z3.Bool('the_entity_types_share_no_member'), z3.Bool('strict_mode'), z3.Bool('strict_equality_accepts')
+    env.update(LIT=LIT, LEQ=LEQ, DISJ=DISJ, STRICT=STRICT)
+    gid, kidx = env['gid'], env['kidx']
+    LK = 'ast::expr::ExprKind'
+    cows = [Opaque('Cow<Expr>', f'child{i} (with the action variable replaced)') for i in range(2)]
+    ex.stub(r'Typechecker::<.*>::replace_action_var_with_euid$', lambda ex_, st, c, A: cows[kidx[gid(ex_, st, A[1])]] if gid(ex_, st, A[1]) in kidx else None, 'replace_action_var_with_euid(child): the child')
+
+    def deref(ex_, st, c, A):
+        g = gid(ex_, st, A[0])
+        for i, cw in enumerate(cows):
+            if cw.id == g:
+                return ex_.new_cell(st, Agg('struct', '~litprobe', None, [IntV(z3.IntVal(i), 'usize')]), 'cow target')
+        return None
+    ex.stub(r'Cow<.*Expr> as Deref>::deref$', deref, 'Cow::deref')
+
+    def kind_probe(ex_, st, c, A):
+        v = strip(ex_, st, A[0])
+        if isinstance(v, Agg) and v.name == '~litprobe':
+            i = int(str(z3.simplify(v.fields[0].t)))
+            return [([LIT[i]], ex_.new_cell(st, Agg('variant', LK, 'Lit', [Opaque('ast::literal::Literal', f'literal {i}')]), 'kind')),
+                    ([z3.Not(LIT[i])], ex_.new_cell(st, Agg('variant', LK, 'Var', [Agg('variant', 'ast::expr::Var', 'Principal', [])]), 'kind'))]
+        return None
+    ex.stub(r'Expr::<.*>::expr_kind$|Expr::expr_kind$', kind_probe, 'Expr::expr_kind of an operand: a literal or not (free)')
+    ex.stub(r'Literal as PartialEq>::(eq|ne)$', lambda ex_, st, c, A: BoolV(LEQ if c.endswith('::eq') else z3.Not(LEQ)), 'Literal equality: free')
+    ex.stub(r'EntityLUB::is_disjoint$', lambda ex_, st, c, A: BoolV(DISJ), 'EntityLUB::is_disjoint: free')
+    ex.stub(r'EntityKind::as_entity_lub$', lambda ex_, st, c, A: (lambda k: some(k.fields[0]) if isinstance(k, Agg) and k.variant == 'Entity' else none())(strip(ex_, st, A[0])), 'EntityKind::as_entity_lub')
+    ex.stub(r'ValidationMode::is_strict$', lambda ex_, st, c, A: BoolV(STRICT), 'validation mode: strict or not')
+    TA = 'validator::typecheck::typecheck_answer::TypecheckAnswer'
+
+    def strict_eq(ex_, st, c, A):
+        def rej(s2):
+            s2.notes['errors'] = s2.notes.get('errors', 0) + 1
+        return [([SEQ], Agg('variant', TA, 'TypecheckSuccess', [A[2], cap(F)], ('expr_type', 'expr_capability'))), ([z3.Not(SEQ)], Agg('variant', TA, 'TypecheckFail', [A[2]], ('expr_recovery_type',)), rej)]
+    ex.stub(r'Typechecker::<.*>::enforce_strict_equality$', strict_eq, 'enforce_strict_equality (strict mode): accepts the annotated node, or reports an error and rejects')
+    ex.stub(r'ExprBuilder<.*> as (expr_builder::)?ExprBuilder>::(binary_app|is_eq)$|ExprBuilder::<.*>::(binary_app|is_eq)$',
+            lambda ex_, st, c, A: (lambda b: Agg('struct', '~typed', None, [b.fields[0], Opaque('node', 'typed node')]) if isinstance(b, Agg) and b.name == '~builder' else None)(strip(ex_, st, A[0])), 'typed node built with the annotation of the builder')
+
+
+def spec_eq(kinds, CL, PRIOR, notes=None, env=None):
+    LIT, LEQ, DISJ = env['LIT'], env['LEQ'], env['DISJ']
+
+    def type_ok(rk):
+        if 'Never' in kinds or rk == 'Bool':
+            return T
+        both = z3.And(LIT)
+        if rk == 'True':          # always true: two equal literals
+            return z3.And(both, LEQ)
+        if rk == 'False':         # never true: two different literals, or two entity types without a common member
+            return z3.Or(z3.And(both, z3.Not(LEQ)), z3.And(z3.BoolVal(kinds[0] == 'Entity' and kinds[1] == 'Entity'), DISJ))
+        return F
+    allk = set(KINDS)
+    return {'evaluated': [True, True], 'kinds_ok': [allk, allk], 'capin': [PRIOR, PRIOR], 'capout': PRIOR, 'type_ok': type_ok}
+
+
+def is_extra(ex, env):
+    """`is`: whether the operand's entity types contain the tested type, and whether they are exactly it, are free"""
+    CONT, SG = z3.Bool('the_operand_types_contain_the_tested_type'), z3.Int('single_entity_type')       # SG: 0 several types, 1 exactly the tested type, 2 exactly another type
+    env.update(CONT=CONT, SG=SG)
+    env['pre'] += [SG >= 0, SG <= 2, z3.Implies(SG == 1, CONT), z3.Implies(SG == 2, z3.Not(CONT))]
+    gid = env['gid']
+    ET, OTHER = env['etype'], Opaque('ast::entity::EntityType', 'another entity type')
+    ex.stub(r'EntityLUB::contains_entity_type$', lambda ex_, st, c, A: BoolV(CONT), 'EntityLUB::contains_entity_type(tested type): free')
+    ex.stub(r'EntityLUB::get_single_entity$', lambda ex_, st, c, A: [([SG == 0], none()), ([SG == 1], some(ex_.new_cell(st, ET, 'et'))), ([SG == 2], some(ex_.new_cell(st, OTHER, 'et')))],
+            'EntityLUB::get_single_entity: none, the tested type, or another type')
+    ex.stub(r'EntityType as PartialEq>::(eq|ne)$', lambda ex_, st, c, A: BoolV(z3.BoolVal((gid(ex_, st, A[0]) == gid(ex_, st, A[1])) == c.endswith('::eq'))), 'EntityType equality by identity of the two opaque types')
+    ex.stub(r'EntityType as Clone>::clone$', lambda ex_, st, c, A: strip(ex_, st, A[0]), 'EntityType::clone')
+    ex.stub(r'EntityKind::is_subtype$', lambda ex_, st, c, A: BoolV(T), 'EntityKind::is_subtype(_, AnyEntity): every entity type is an entity reference')
+    ex.stub(r'ExprBuilder<.*> as (expr_builder::)?ExprBuilder>::is_entity_type$|ExprBuilder::<.*>::is_entity_type$',
+            lambda ex_, st, c, A: (lambda b: Agg('struct', '~typed', None, [b.fields[0], Opaque('node', 'typed node')]) if isinstance(b, Agg) and b.name == '~builder' else None)(strip(ex_, st, A[0])), 'typed node built with the annotation of the builder')
+
+
+def spec_is(kinds, CL, PRIOR, notes=None, env=None):
+    def type_ok(rk):
+        if 'Never' in kinds or rk == 'Bool':
+            return T
+        if rk == 'True':          # always true: the operand can only be of the tested type
+            return env['SG'] == 1
+        if rk == 'False':         # never true: the operand cannot be of the tested type
+            return z3.Not(env['CONT'])
+        return F
+    return {'evaluated': [True], 'kinds_ok': [{'Entity', 'Never'}], 'capin': [PRIOR], 'capout': PRIOR, 'type_ok': type_ok}
+
+
 def spec_get(kinds, CL, PRIOR, notes=None, env=None):
     d = notes.get('decl')
     declared = d is not None and d >= 0
@@ -106,8 +235,29 @@ def nodes():
              lambda env: ('the operand is a string', env['K'][0] == KINDS.index('String')))]
 
 
+def tag_nodes():
+    bi = lambda op: (lambda k: Agg('variant', EK, 'BinaryApp', [Agg('variant', 'ast::ops::BinaryOp', op, []), k[0], k[1]]))
+    ent_str = lambda env: z3.And(env['K'][0] == KINDS.index('Entity'), env['K'][1] == KINDS.index('String'))
+    return [('`hasTag`', bi('HasTag'), spec_hastag, lambda env: ('the operands are an entity and a string', ent_str(env))),
+            ('`getTag`', bi('GetTag'), spec_gettag, lambda env: ('the operands are an entity and a string, the tag access is guarded and the entity types have tags', z3.And(ent_str(env), env['INPRIOR'], env['TAGS'], env['LUBOK'])))]
+
+
 def families(ctx, battery):
-    out = []
+    etype = Opaque('ast::entity::EntityType', 'the tested entity type')
+
+    def is_x(ex, env):
+        env['etype'] = etype
+        is_extra(ex, env)
+    out = [('typing rule of `is`', lambda: control_node(ctx, '`is`', lambda k: Agg('variant', EK, 'Is', [k[0], etype], ('expr', 'entity_type')), 1, spec_is, battery, None, extra=is_x,
+                                                         accept_when=lambda env: ('the operand is an entity', env['K'][0] == KINDS.index('Entity')),
+                                                         why='the typing rule of `is` gives a type test a singleton type it does not always have, or accepts a non-entity operand')),
+           ('typing rule of `==`', lambda: control_node(ctx, '`==`', lambda k: Agg('variant', EK, 'BinaryApp', [Agg('variant', 'ast::ops::BinaryOp', 'Eq', []), k[0], k[1]]), 2, spec_eq, battery, None, extra=eq_extra,
+                                                         accept_when=lambda env: ('permissive mode', z3.Not(env['STRICT'])), fname='typecheck_binary',
+                                                         why='the typing rule of `==` gives a comparison a singleton type it does not always have, or skips an operand'))]
+    for label, build, spec, acc in tag_nodes():
+        out.append((f'typing rule of {label}', lambda label=label, build=build, spec=spec, acc=acc: control_node(
+            ctx, label, build, 2, spec, battery, None, extra=tag_extra, accept_when=acc, fname='typecheck_binary',
+            why=f'the typing rule of {label} accepts a tag access evaluation can fail on (wrong operand types, no `hasTag` guard), or gives the node the wrong type / capability')))
     for label, build, spec, attr, acc in nodes():
         def extra(ex, env, attr=attr):
             env['attr'] = attr
